@@ -269,44 +269,50 @@ Proof.
   assert (Hempty : ms = [] -> rule_offsets ms 0 = ([], 0)) by (intros ->; reflexivity).
   pose proof (rule_end_pos ms Hwf) as Hpos.
   assert (Hnle : ms <> [] -> natural_align ms <= snd (rule_offsets ms 0)) by (intros; apply natural_align_le_end; [assumption|lia|assumption]).
+  assert (Hnat1 : ms = [] -> natural_align ms = 1) by (intros ->; reflexivity).
   destruct (rule_offsets ms 0) as [os e] eqn:Ero. simpl in Hmono, Hpos, Hnle. cbn [snd].
+  assert (H2963 : 2 ^ 29 < 2 ^ 63) by (apply Z.pow_lt_mono_r; lia).
+  assert (H6364 : 2 ^ 63 < 2 ^ 64) by (apply Z.pow_lt_mono_r; lia).
   assert (Hfin : forall a, is_pow2 a -> a < 2 ^ 29 -> e <= struct_max c ->
-            fb_align e a = align_up e a /\ ((align_up e a =? 0) = true <-> ms = [])).
-  { intros a Ha Hab He. pose proof (pow2_pos a Ha). destruct (pow2_le_bound a (2 ^ 29 - 1)) as [? ?]; [lia|lia|].
-    split. - apply fb_align_eq; [assumption|lia|]. assert (2 ^ 29 < 2 ^ 63) by (apply Z.pow_lt_mono_r; lia). assert (2 ^ 63 < 2 ^ 64) by (apply Z.pow_lt_mono_r; lia). lia.
-    - pose proof (align_up_ge e a ltac:(lia)). split.
-      + intros Hz. destruct ms as [|m r]; [reflexivity|]. assert (0 < e) by (apply Hpos; discriminate). lia.
-      + intros ->. specialize (Hempty eq_refl). inversion Hempty; subst. unfold align_up. rewrite Z.mod_0_l by lia. rewrite Z.sub_0_r, Z.mod_same by lia. reflexivity. }
-  destruct force as [fa|].
+            fb_align e a = align_up e a /\ e <= align_up e a /\ ((align_up e a =? 0) = true <-> ms = [])).
+  { intros a Ha Hab He. pose proof (pow2_pos a Ha). pose proof (align_up_ge e a ltac:(lia)).
+    split; [apply fb_align_eq; [assumption|lia|lia]|]. split; [lia|]. split.
+    - intros Hz. destruct ms as [|m r]; [reflexivity|]. assert (0 < e) by (apply Hpos; discriminate). lia.
+    - intros ->. specialize (Hempty eq_refl). inversion Hempty; subst. unfold align_up. rewrite Z.mod_0_l by lia. rewrite Z.sub_0_r, Z.mod_same by lia. reflexivity. }
+  assert (Hnatb : e <= struct_max c -> natural_align ms < 2 ^ 29).
+  { intros He. destruct ms as [|m r]; [rewrite (Hnat1 eq_refl); lia|]. specialize (Hnle ltac:(discriminate)). lia. }
+  (* common tail: alignment a known to be a power of two below 2^29, e within the limit *)
+  assert (Htail : forall a, is_pow2 a -> a < 2 ^ 29 -> e <= struct_max c ->
+            ((if struct_max c <? fb_align e a then None
+              else if fb_align e a =? 0 then None
+              else Some {| l_offsets := os; l_size := fb_align e a; l_align := a |}) = Some L
+             <-> (align_up e a <= struct_max c /\ ms <> []) /\ L = {| l_offsets := os; l_size := align_up e a; l_align := a |})).
+  { intros a Ha Hab He. destruct (Hfin a Ha Hab He) as (-> & Hge & Hz).
+    destruct (struct_max c <? align_up e a) eqn:E1; [split; [discriminate|intros [[? _] _]; lia]|].
+    destruct (align_up e a =? 0) eqn:E2.
+    - split; [discriminate|]. intros [[_ Hne] _]. exfalso. apply Hne. apply Hz. reflexivity.
+    - split.
+      + intros HL; some_inj HL; subst L. split; [|reflexivity]. split; [lia|]. intros ->. destruct Hz as [_ Hz]. specialize (Hz eq_refl). discriminate.
+      + intros [_ ->]. reflexivity. }
+  destruct force as [fa|]; cbn [rule_align].
   - destruct (is_valid_align c fa) eqn:Eva.
     + apply is_valid_align_iff in Eva; [|lia]. destruct Eva as [Hfp Hfle]. pose proof (pow2_pos fa Hfp) as Hfpos.
       destruct (e <=? struct_max c) eqn:Ee.
       * destruct ((0 <? fa) && (fa <? natural_align ms)) eqn:Enat.
         -- split; [discriminate|]. intros [[[_ [_ ?]] _] _]. lia.
-        -- assert ((0 <? fa) = true) as -> by lia. destruct (Hfin fa Hfp ltac:(lia) ltac:(lia)) as [-> Hz].
-           cbn [rule_align]. destruct (align_up e fa =? 0) eqn:Ez.
-           ++ split; [discriminate|]. intros [[_ [_ Hne]] _]. exfalso. apply Hne. apply Hz. reflexivity.
-           ++ split.
-              ** intros H; some_inj H; subst L. split; [|reflexivity]. repeat split; try assumption; try lia.
-                 intros ->. destruct Hz as [_ Hz]. specialize (Hz eq_refl). discriminate.
-              ** intros [_ ->]. reflexivity.
-      * split; [discriminate|]. intros [[_ [? _]] _]. lia.
+        -- assert ((0 <? fa) = true) as -> by lia.
+           rewrite (Htail fa Hfp ltac:(lia) ltac:(lia)). split.
+           ++ intros [[H1 H2] ->]. split; [|reflexivity]. repeat split; try assumption; lia.
+           ++ intros [[_ [H1 H2]] ->]. split; [split; assumption|reflexivity].
+      * split; [discriminate|]. intros [[_ [H1 _]] _]. pose proof (align_up_ge e fa Hfpos). lia.
     + split; [discriminate|]. intros [[[Hp [Hle _]] _] _].
       assert (is_valid_align c fa = true) by (apply is_valid_align_iff; [lia|split; assumption]). congruence.
   - destruct (e <=? struct_max c) eqn:Ee.
-    + cbn [rule_align]. assert ((0 <? 0) = false) as -> by reflexivity. cbn [andb].
-      destruct (Z.eq_dec (Z.of_nat (length ms)) 0) as [Hl|Hl].
-      * assert (ms = []) by (destruct ms; [reflexivity|simpl in Hl; lia]). subst ms.
-        specialize (Hempty eq_refl). inversion Hempty; subst. cbn. split; [discriminate|]. intros [[_ [_ Hne]] _]. congruence.
-      * assert (Hne : ms <> []) by (intros ->; simpl in Hl; lia).
-        assert (natural_align ms < 2 ^ 29) by (specialize (Hnle Hne); lia).
-        destruct (Hfin (natural_align ms) Hnp ltac:(lia) ltac:(lia)) as [-> Hz].
-        destruct (align_up e (natural_align ms) =? 0) eqn:Ez.
-        -- exfalso. apply Hne. apply Hz. reflexivity.
-        -- split.
-           ++ intros HL; some_inj HL; subst L. split; [|reflexivity]. repeat split; try assumption; lia.
-           ++ intros [_ ->]. reflexivity.
-    + split; [discriminate|]. intros [[_ [? _]] _]. lia.
+    + assert ((0 <? 0) = false) as -> by reflexivity. cbn [andb].
+      rewrite (Htail (natural_align ms) Hnp (Hnatb ltac:(lia)) ltac:(lia)). split.
+      * intros [[H1 H2] ->]. split; [|reflexivity]. repeat split; assumption.
+      * intros [[_ [H1 H2]] ->]. split; [split; assumption|reflexivity].
+    + split; [discriminate|]. intros [[_ [H1 _]] _]. pose proof (align_up_ge e (natural_align ms) ltac:(lia)). lia.
 Qed.
 
 (* the layout the rule gives, in relational form: every offset is the least aligned one after the previous
@@ -399,15 +405,13 @@ Proof.
   intros Hc Hwf H Hn. pose proof Hc as [Hsm Hfm].
   apply (struct_layout_iff c force ms L Hc Hwf) in H. destruct H as [[Hf [He Hne]] ->].
   unfold rule_layout. pose proof (rule_end_pos ms Hwf Hne) as Hpos.
-  pose proof (natural_align_le_end ms Hwf 0 ltac:(lia) Hne) as Hnle.
   destruct (rule_offsets ms 0) as [os e]. simpl in *.
-  assert (Hap : is_pow2 (rule_align force ms) /\ rule_align force ms < 2 ^ 29).
-  { destruct force as [fa|]; simpl; [destruct Hf as (? & ? & ?); split; [assumption|lia]|].
-    split; [apply natural_align_pow2; assumption|lia]. }
-  destruct Hap as [Hap Hab]. pose proof (pow2_pos _ Hap) as Hapos.
+  assert (Hap : is_pow2 (rule_align force ms)).
+  { destruct force as [fa|]; simpl; [destruct Hf as (? & ? & ?); assumption|apply natural_align_pow2; assumption]. }
+  pose proof (pow2_pos _ Hap) as Hapos.
   pose proof (align_up_ge e (rule_align force ms) Hapos).
   destruct (align_up_least e (rule_align force ms) Hapos) as (_ & Hmod & _).
-  assert (2 ^ 29 + 2 ^ 29 < 2 ^ 31) by (change (2 ^ 31) with (4 * 2 ^ 29); assert (0 < 2 ^ 29) by (apply Z.pow_pos_nonneg; lia); lia).
+  assert (2 ^ 29 < 2 ^ 31) by (apply Z.pow_lt_mono_r; lia).
   unfold wf_member; simpl. repeat split; try assumption; lia.
 Qed.
 
